@@ -10,7 +10,14 @@
                            set_face, set_wraps, set_cursor, io::Write::write once per chunk (on the writer itself, through
                            utf8_writer() and through tty_writer() which also decodes SGR escape
                            sequences), over a view `sh` of a backing slice `data`
-     merge_op              the same operation with all its bytes passed in a single call
+                           put_text (every cell of a Text); sessions: ONE utf8_writer() / tty_writer() adapter
+                           used for several writes with operations on adapter.parent() in between (OSessU,
+                           OSessT: the adapter's decoder lives through the session, the parent operations
+                           do not touch it)
+     merge_op              the same operation with all its bytes passed in a single call; for a session:
+                           adjacent byte chunks joined (the bytes between two parent operations in one call)
+     jtext, jt_collect     a JSON text document (string | list | {face, wraps, glyph | text}) and
+                           TextDeserializer's traversal of it into a Text (cells, wraps flag, writing face)
      tty_write / tty_fold  TTYCellWriter::write as coded (one MatcherDecoder::decode per loop iteration,
                            rescheduled bytes re-parsed lazily by the next decode) / the plain fold over bytes
      text_size             the size Text::layout measures for an available width (before the clamp)
@@ -23,7 +30,7 @@
 From Coq Require Import List Arith Bool NArith ZArith Sorting.Sorted.
 From SNT Require Import Base.Outcome Surface.Bounds Surface.Shape Surface.ShapeProofs
   Render.CellLayout Render.Writer Render.TokFuel Render.WriterTty Render.WriterFrame Render.WriterChunks Render.LayoutFacts Render.LayoutRender
-  Render.TextView Render.C09Main.
+  Render.TextView Render.C09Main Render.JsonText.
 Import ListNotations.
 
 (* (1a) Containment on canvas views.  Whatever a client writes through a writer over a view of a
@@ -54,6 +61,18 @@ Theorem C09_chunking : forall (ctx : rctx) (sh : shape) (data : list ccell) (ops
   InBounds sh (length data) -> map merge_op ops1 = map merge_op ops2 ->
   wops_run ctx (writer_new sh data) ops1 = wops_run ctx (writer_new sh data) ops2.
 Proof. exact chunking_programs. Qed.
+
+(* (2a') what (2a) says for sessions: between two parent operations the bytes may be cut anywhere (inside
+   a character, inside an escape sequence); a character or sequence cut BY a parent operation is
+   completed by the bytes after it and takes effect then.  Stated on its own for the two adapters. *)
+Theorem C09_session_chunking_utf8 : forall (ctx : rctx) (st : wstate) (items : list sitem),
+  sess_u ctx st (merge_items items) = sess_u ctx st items.
+Proof. exact (fun ctx st items => sess_u_merge ctx items st). Qed.
+
+Theorem C09_session_chunking_tty : forall (ctx : rctx) (st : wstate) (ts : tstate) (items : list sitem),
+  InBounds (w_sh st) (length (w_data st)) -> TokOk ts ->
+  sess_t ctx st ts (merge_items items) = sess_t ctx st ts items.
+Proof. exact (fun ctx st ts items => sess_t_merge ctx items st ts). Qed.
 
 (* (2b) ... for the UTF-8 adapters from any writer state, in particular with the decoder in the middle of
    a character; no hypothesis on the surface *)
@@ -168,6 +187,19 @@ Proof.
   exists ctx_noglyph, [glyph_abcdefg], 3. split; [auto|]. split; [reflexivity|].
   vm_compute. split; [tauto|]. intros H. repeat (destruct H as [H|H]; [discriminate|]). exact H.
 Qed.
+
+(* (5) TextDeserializer loses nothing either: the Text built from a JSON document holds exactly the
+   characters and glyphs of the document in document order (jt_kinds), each under the faces of the objects
+   around it laid over one another outermost first (jt_emit); cells already in the text are kept; the
+   wraps flag is the last "wraps" met; the writing face is restored after every object.  (A glyph
+   object's "text" is not visited, as coded.) *)
+Theorem C09_json_text : forall (t : jtext) (cs : list ccell) (w : bool) (cur : face),
+  jt_collect (mkJ cs w cur) t = mkJ (cs ++ jt_emit cur t) (jt_wraps w t) cur.
+Proof. exact jt_collect_spec. Qed.
+
+Theorem C09_json_text_kinds : forall (t : jtext),
+  map c_kind (j_cells (jt_collect j0 t)) = jt_kinds t /\ j_face (jt_collect j0 t) = face0.
+Proof. exact jt_deserialize_kinds. Qed.
 
 (* ---------- non-vacuity ---------- *)
 (* a transposed, offset view of a 5 x 6 canvas; a program that writes "a€" split inside the
@@ -297,3 +329,27 @@ Proof.
   split; [vm_compute; reflexivity|]. split; [apply rep_chain; [vm_compute; discriminate|reflexivity|apply rep_root]|].
   vm_compute. repeat split; reflexivity.
 Qed.
+
+(* one tty_writer() adapter: ESC [ 1 | parent put_char 'x' | m c -- the sequence is completed after the
+   parent operation, so 'x' is written before the face changes and 'c' after; cutting the bytes between
+   parent operations differently changes nothing *)
+Example C09_session_nonvacuous :
+  let st := writer_new (of_size 1 4) (repeat blank 4) in
+  let items := [SBytes [27; 91]; SBytes [49]; SParent (PChar 120); SBytes [109]; SBytes [99]]%N in
+  merge_items items = [SBytes [27; 91; 49]; SParent (PChar 120); SBytes [109; 99]]%N /\
+  match wop_step ex_ctx (set_face st (mkFace (Some 255%N) None 8%N)) (OSessT items) with
+  | Ok (st', _) => map c_kind (firstn 2 (w_data st')) = [KChar 120; KChar 99]
+  | _ => False
+  end.
+Proof. vm_compute. split; reflexivity. Qed.
+
+(* ["a", {face: fg, text: ["b", {face: bg, glyph}]}, {wraps: false}] *)
+Example C09_json_text_nonvacuous :
+  let g := KGlyph 999 1 2 [120%N] in
+  let doc := JArr [JStr [97%N]; JObj (Some (mkFace (Some 255%N) None 0%N)) None
+                                   (JBText (JArr [JStr [98%N]; JObj (Some (mkFace None (Some 65535%N) 0%N)) None (JBGlyph g)]));
+                   JObj None (Some false) JBNone] in
+  jt_collect j0 doc =
+  mkJ [mkCell face0 (KChar 97); mkCell (mkFace (Some 255%N) None 0%N) (KChar 98);
+       mkCell (mkFace (Some 255%N) (Some 65535%N) 0%N) g] false face0.
+Proof. vm_compute. reflexivity. Qed.
